@@ -15,7 +15,7 @@ func (h *H) ProjectCatalog() M {
 	s := h.Store()
 	nodes, svcs, chks, coords := []M{}, []M{}, []M{}, []M{}
 	gws, topo, kinds, usage, vips, free := []M{}, []M{}, []M{}, M{}, []M{}, []string{}
-	tgw, igw := []M{}, []M{}
+	tgw, igw, ces := []M{}, []M{}, []M{}
 	nkv := 0
 	_ = s.WalkAllTables(func(table string, item any) bool {
 		switch table {
@@ -74,6 +74,9 @@ func (h *H) ProjectCatalog() M {
 		case "kvs":
 			nkv++
 		case "config-entries":
+			if ce, ok := item.(structs.ConfigEntry); ok {
+				ces = append(ces, M{"kind": ce.GetKind(), "name": ce.GetName()})
+			}
 			switch e := item.(type) {
 			case *structs.TerminatingGatewayConfigEntry:
 				names := []string{}
@@ -102,7 +105,8 @@ func (h *H) ProjectCatalog() M {
 	sortM(topo, "up", "down")
 	sortM(kinds, "kind", "name")
 	sortM(vips, "name", "peer")
+	sortM(ces, "kind", "name")
 	sort.Strings(free)
 	return M{"nodes": nodes, "svcs": svcs, "chks": chks, "coords": coords, "gws": gws, "topo": topo, "kinds": kinds, "usage": usage,
-		"vips": vips, "free": free, "tgw": tgw, "igw": igw, "nkv": nkv}
+		"vips": vips, "free": free, "tgw": tgw, "igw": igw, "nkv": nkv, "ces": ces}
 }
